@@ -261,7 +261,9 @@ def count_obligations(files):
 
 
 GEN_TRANSLATOR = {"UnitTables": "units", "CostConsts": "cost", "TurnTable": "turn", "CostRates": "costrates",
-                  "Haversine": "haversine", "SinkFormat": "sinkformat", "Soc": "soc", "StateFeature": "statefeature"}
+                  "Haversine": "haversine", "SinkFormat": "sinkformat", "Soc": "soc", "StateFeature": "statefeature",
+                  "TerminationModel": "termination", "FrontierModels": "frontier", "RouteSimilarity": "similarity",
+                  "TraversalModels": "travmodels", "TraversalOutput": "outputformat", "GridSearchConsts": "gridsearch"}
 
 
 def proof_obligations(prop, extra_targets=(), extra_props=()):
